@@ -18,6 +18,8 @@ import (
 const prelude = `(declare-fun strlen (Int) Int)
 (declare-fun str_empty () Int)
 (declare-fun rtype (Int) Int)
+(declare-fun at (Int Int) Int)
+(assert (forall ((o Int) (i Int)) (! (= (at o i) (+ o i)) :pattern ((at o i)))))
 (assert (= (strlen str_empty) 0))
 `
 
@@ -142,6 +144,9 @@ func discharge(o *Oblig, cfg *SolverCfg, idx int) {
 		return
 	}
 	half := cfg.quickTimeout / 2
+	if o.Budget > 0 {
+		half = o.Budget / 2
+	}
 	runs := solverCmds(file, half, cfg.seed)
 	st, out := runSolverSlot(context.Background(), half, runs[0])
 	final := res{runs[0].name, st, out}
